@@ -101,7 +101,7 @@ func makeDocs(p *plan) []*document.Document {
 	return docs
 }
 
-var docOpKinds = []string{"para", "heading", "footnote", "endnote", "list", "image", "header", "margins", "style_edit", "style_add", "table", "title", "render", "toc", "removenote", "fromMarkdown", "bullet", "formatted"}
+var docOpKinds = []string{"para", "heading", "footnote", "endnote", "list", "image", "header", "margins", "style_edit", "style_add", "table", "title", "render", "toc", "removenote", "fromMarkdown", "bullet", "formatted", "save"}
 
 func genDocOps(r *rng, n int) []docOp {
 	var ops []docOp
@@ -115,9 +115,49 @@ func genDocOps(r *rng, n int) []docOp {
 	return ops
 }
 
+// held: the bytes a caller obtained from ToBytes in the middle of a history and still holds at the end, per document
+var (
+	heldMu sync.Mutex
+	held   = map[**document.Document][][]byte{}
+)
+
+// heldProjection: what the held byte slices show now (the packages canonicalised; the time stamps of docProps left out)
+func heldProjection(dp **document.Document) string {
+	heldMu.Lock()
+	hs := held[dp]
+	heldMu.Unlock()
+	var out []string
+	for _, b := range hs {
+		v, err := readPackage(b)
+		if err != nil {
+			out = append(out, "unreadable: "+err.Error())
+			continue
+		}
+		var names []string
+		for n := range v.Parts {
+			if !strings.HasPrefix(n, "docProps/") {
+				names = append(names, n)
+			}
+		}
+		sort.Strings(names)
+		h := sha1.New()
+		for _, n := range names {
+			h.Write([]byte(n + "\x00" + canonPart(n, v.Parts[n]) + "\x00"))
+		}
+		out = append(out, hex.EncodeToString(h.Sum(nil)[:8]))
+	}
+	return strings.Join(out, " ")
+}
+
 func applyDocOp(dp **document.Document, op docOp) {
 	d := *dp
 	switch op.Kind {
+	case "save":
+		if b, err := d.ToBytes(); err == nil {
+			heldMu.Lock()
+			held[dp] = append(held[dp], b)
+			heldMu.Unlock()
+		}
 	case "para":
 		d.AddParagraph(op.S)
 	case "formatted":
@@ -303,8 +343,14 @@ func runC07Child(cfg *runCfg) error {
 		}
 	}
 	var out []map[string]string
-	for _, d := range docs {
-		out = append(out, projectDoc(d))
+	heldNow := make([]string, len(docs))
+	for i := range docs { // before anything else is serialised
+		heldNow[i] = heldProjection(&docs[i])
+	}
+	for i, d := range docs {
+		m := projectDoc(d)
+		m["held:bytes"] = heldNow[i]
+		out = append(out, m)
 	}
 	b, _ := json.Marshal(out)
 	return os.WriteFile(filepath.Join(cfg.out, "proj.json"), b, 0644)
@@ -377,7 +423,7 @@ func runC07(cfg *runCfg) error {
 		raceBin = ""
 	}
 	res.Extra["race_binary"] = raceBin != ""
-	res.Rule = "pairs of call histories (18 kinds of calls: content, notes incl. removal, lists, images, headers, page settings, in-place edits of predefined styles through the document's own style manager, custom styles, tables, properties, TOC, template rendering, creation through the Markdown converter) on two distinct documents - both new, both rendered from one template of one engine (whose base document carries 0-7 relationship-creating elements), or both opened from the same bytes; each pair runs in fresh processes: each history alone, both orders sequentially, a random interleaving, and concurrently in goroutines (under the race detector when available); the projection of each document (every part canonicalised, accessors) must equal its projection alone; non-trivial = both histories have at least 3 calls; distinct by hash of the pair"
+	res.Rule = "pairs of call histories (19 kinds of calls: saving in the middle of a history with the bytes held until the end, content, notes incl. removal, lists, images, headers, page settings, in-place edits of predefined styles through the document's own style manager, custom styles, tables, properties, TOC, template rendering, creation through the Markdown converter) on two distinct documents - both new, both rendered from one template of one engine (whose base document carries 0-7 relationship-creating elements), or both opened from the same bytes; each pair runs in fresh processes: each history alone, both orders sequentially, a random interleaving, and concurrently in goroutines (under the race detector when available); the projection of each document (every part canonicalised, accessors) must equal its projection alone; non-trivial = both histories have at least 3 calls; distinct by hash of the pair"
 	dist := newDistinct()
 	type job struct {
 		ci   int
